@@ -806,7 +806,7 @@ pub fn prop() -> DiceProp {
         nightly: false,
         check_only: false,
         ndice: 200,
-        quick: (2500, 1),
+        quick: (4000, 1),
         thorough: (6000, 5),
         build,
         fixed,
